@@ -297,16 +297,25 @@ SPECS["C12"] = {
                    "entry answered with nil keeps serving the old instance; expiry = now + the TTL of its kind; refresh counted once. REFRESH: doRefresh at a "
                    "symbolic t evicts exactly the entries with t - lastAccess > idle and re-queues exactly the remaining ones with t after their expiry. PEEK: "
                    "hit iff cached, serves the cached instance, refreshes last access. LOOKUP: doLookup over 1..3 sources with a provider stub returning nil / "
-                   "partial / full maps with or without an error: one query, exactly one answer per requested source, in order, carrying the provider's result.",
-    "bounds": {"quick": "2 sources; all option values in [0, 24h]/[0, 240h]; instants between 2020 and 2030", "thorough": "same"},
-    "outside": ["the 10 ms batching timer and rate limiter loop in cloudProviderLookupDispatcher.run", "real concurrency between Peek and the owner goroutine", "the Run loop's channel hand-off of queued answers"],
+                   "partial / full maps with or without an error: one query, exactly one answer per requested source, in order, carrying the provider's result. "
+                   "LOOP: the real Run loop (select over the lookup, answer and refresh-ticker channels), the real lookup dispatcher goroutine (batching by size and by the 10 ms batch "
+                   "timer, x/time/rate limiter with an infinite rate, doLookup) and the handlers wired together under the engine's scheduler: a client submits 1..2 (3) sources out of two, "
+                   "optionally letting the batch timer fire in between, the provider (batch limit 1..2) answers every call fully / partially / with nothing / with an error (symbolic), "
+                   "the answers are read; then the mock clock moves one refresh period and the re-query answers are read. Asserted: one answer per submission, one query per submission, "
+                   "1..max-batch sources per call, nobody waiting with a surplus answer, a source is served as resolved exactly when some answer so far resolved it, the gauges equal the "
+                   "entry counts, an entry expires one (negative) TTL after its latest answer, idle entries are evicted and entries past their TTL are re-queried exactly once at the tick.",
+    "bounds": {"quick": "2 sources; all option values in [0, 24h]/[0, 240h]; instants between 2020 and 2030; loop: 1..2 submissions, 3 provider outcomes, TTLs / idle period from {30 s, 5 min / 10 min}, one refresh tick",
+               "thorough": "loop: 1..3 submissions, all 5 provider outcomes"},
+    "outside": ["real concurrency between Peek and the owner goroutine", "schedules other than the engine's cooperative ones (goroutines switch at blocking operations; every multi-ready select forked)", "a finite rate limit"],
     "assumptions": STUBS_COMMON + [MATH_NOTE, TIME_MODEL],
     "jobs": [
         {"pkg": "./pkg/cachedinstances/cloudprovider", "harness": "pkg/cachedinstances/cloudprovider", "mode": "math",
-         "entries": {"quick": ["VerifC12_Info", "VerifC12_Refresh", "VerifC12_Peek", "VerifC12_Lookup", "VerifC12_Twin"]},
-         "reach": {"VerifC12_Info": ["kept-on-error", "positive-answer"], "VerifC12_Refresh": ["evicted", "requeued"], "VerifC12_Peek": ["hit"], "VerifC12_Lookup": ["lookup"]},
-         "twin": {"VerifC12_Twin": True},
-         "limits": {"quick": {"timeout": "600s"}, "thorough": {"timeout": "600s"}}},
+         "entries": {"quick": ["VerifC12_Info", "VerifC12_Refresh", "VerifC12_Peek", "VerifC12_Lookup", "VerifC12_Loop", "VerifC12_LoopTwin", "VerifC12_Twin"],
+                     "thorough": ["VerifC12_Info", "VerifC12_Refresh", "VerifC12_Peek", "VerifC12_Lookup", "VerifC12_Loop", "VerifC12_LoopFull", "VerifC12_LoopTwin", "VerifC12_Twin"]},
+         "reach": {"VerifC12_Info": ["kept-on-error", "positive-answer"], "VerifC12_Refresh": ["evicted", "requeued"], "VerifC12_Peek": ["hit"], "VerifC12_Lookup": ["lookup"],
+                   "VerifC12_Loop": ["refreshed", "evicted", "loop-done"], "VerifC12_LoopFull": ["refreshed", "evicted", "loop-done"]},
+         "twin": {"VerifC12_Twin": True, "VerifC12_LoopTwin": True}, "blocked_is_violation": True,
+         "limits": {"quick": {"timeout": "600s"}, "thorough": {"timeout": "1800s"}}},
     ],
 }
 
